@@ -22,7 +22,9 @@ CFG = dict(
         "table_tri_edges_lt", "emitted_vertex_on_crossing_edge", "emitted_vertex_near_isosurface",
         # orientation
         "table_triangle_outward_corners", "table_triangle_outward", "emitted_triangle_outward",
-        "volume_translation_invariant", "march_volume_translation_invariant",
+        "volume_translation_invariant", "march_volume_translation_invariant", "table_inside_tests",
+        # exactly the cells the real marcher visits
+        "marched_perm_box", "marched_closed",
     ],
     # reading aid (ignored by ./check): the closedness result is ONE result under four names, and several listed
     # theorems are intermediate lemmas of it rather than independent clauses of the property
